@@ -1327,10 +1327,9 @@ theorem C12_gen_constants :
 MEANING: the bodies are translated statement by statement (`Gen/PowerProg.lean`) and proved equal to `powerOn` / `powerOff` /
 `reset` / `tickDown ∘ tickUp` / the actions for every node — `Props/C12Prog.lean`, `C12_gen_power_on_sem` etc. -/
 
-/-- interfaces: `enable()` refuses when the node is not ON; every receive/send entry point starts with the `enabled` test -/
+/-- interfaces: every receive/send entry point starts with the `enabled` test (that `enable()` refuses when the node is not
+ON is no longer a pinned guard list: the bodies are translated, `C12_gen_interface_enable_sem` in Props/C12Prog.lean) -/
 theorem C12_gen_interfaces :
-    wiredEnableGuards = ["enabled", "no-node", "node-not-on", "no-link"] ∧
-    wirelessEnableGuards = ["enabled", "no-node", "node-not-on"] ∧
     nicEntryGuarded.all (·.2) = true ∧ nicEntryGuarded.length = 8 := by decide
 
 /-- software: `_can_perform_action` tests the node, and `start`/`run`/`send`/`receive` begin with it -/
@@ -1349,5 +1348,34 @@ theorem C12_refused_unless_startup_all_classes (cls : String) (tbl : List Route)
     request tbl n key sub = (n, if (tbl.find? (fun r => r.key == key)).isSome then .failure else .unreachable) := by
   have := List.all_eq_true.mp C12_gen_routes_guarded (cls, tbl) hc
   exact C12_refused_unless_startup this n hne key sub hk
+
+
+/-! ### routes registered at RUN TIME (an application installed during the episode, a service installed by the software
+manager, an interface connected later) hang under a node-level edge that carries the node-is-on validator -/
+
+/-- the regenerated list of every `add_request` that runs after construction: each goes into a manager that
+`Node._init_request_manager` wires under the node's own manager by an edge with the node-is-on validator, never into the node's
+own manager (the extractor refuses that), and that edge is no `startup` -/
+theorem C12_gen_runtime_routes_guarded :
+    runtimeRouteSites.all (fun s => s.2.2.2 == .nodeOn && s.2.2.1 != "startup") = true ∧
+    runtimeRouteSites.any (fun s => s.1 == "Node._init_request_manager._install_application") = true ∧
+    runtimeRouteSites.any (fun s => s.1 == "SoftwareManager.install" && s.2.2.1 == "application") = true ∧
+    -- the edge named is the edge of the class tables, in every node class
+    runtimeRouteSites.all (fun s => classTables.all (fun c => c.2.contains ⟨s.2.2.1, .nodeOn⟩)) = true := by decide
+
+/-- **hence whatever was registered at run time, and whatever is sent below it (`sub` is arbitrary: any application name, any
+verb, any arguments), a node that is not ON refuses it and nothing changes** — for every node class of the code -/
+theorem C12_runtime_routes_refused (cls : String) (tbl : List Route) (hc : (cls, tbl) ∈ classTables)
+    (s : String × String × String × Guard) (hs : s ∈ runtimeRouteSites) (n : Node) (hne : n.st ≠ .on) (sub : Sub) :
+    request tbl n s.2.2.1 sub = (n, .failure) := by
+  have hall := List.all_eq_true.mp C12_gen_runtime_routes_guarded.1 s hs
+  have hk : s.2.2.1 ≠ "startup" := by
+    intro h; simp [h] at hall
+  have hin : tbl.contains ⟨s.2.2.1, .nodeOn⟩ = true :=
+    List.all_eq_true.mp (List.all_eq_true.mp C12_gen_runtime_routes_guarded.2.2.2 s hs) (cls, tbl) hc
+  have hmem : (⟨s.2.2.1, .nodeOn⟩ : Route) ∈ tbl := by simpa using hin
+  have hsome : (tbl.find? (fun r => r.key == s.2.2.1)).isSome = true := by
+    rw [List.find?_isSome]; exact ⟨_, hmem, by simp⟩
+  rw [C12_refused_unless_startup_all_classes cls tbl hc n hne s.2.2.1 sub hk, hsome]; rfl
 
 end Primaite.Power
